@@ -29,7 +29,7 @@ COMPONENTS = {"real": ["smpl_extract.filters.fir / iir (the compiled extension m
               "stub": []}
 ASSUMPTIONS = ["the compiled extensions cannot be rebuilt here (no Cython): the verdict concerns the .so files present, see coverage.build"]
 EXPECTED_PROBES = ["fir", "iir", "cdxtract", "chicksys_fir", "chicksys_iir_preset", "chicksys_iir_custom", "block_len_1",
-                   "block_shorter_than_memory", "extreme_signal", "silence_in_signal", "saturated", "reset_checked", "many_blocks"]
+                   "block_shorter_than_memory", "extreme_signal", "silence_in_signal", "saturated", "reset_checked", "many_blocks", "twin_instance"]
 SHRINK = {"max_attempts": 400, "max_seconds": 30.0}
 ENUM_FILTERS = [
     {"kind": "fir", "taps": [0.5, 0.25, -0.125], "m0": 0}, {"kind": "fir", "taps": [0.3, 0.3, 0.2, 0.2], "m0": 2},
@@ -97,7 +97,7 @@ def gen(rng: random.Random, tier: str, index: int) -> dict:
         f = {"kind": "cs_fir_custom", "taps": [rng.randint(-20000, 32767) for _ in range(nt)], "m0": rng.randint(0, nt - 1), "k": rng.choice([1, 7, 1000, 32767, 52067])}
         mem = nt - 1
     n = weighted(rng, [(rng.randint(1, 12), 2), (rng.randint(12, 200), 4), (rng.randint(200, 5000), 2)])
-    style = weighted(rng, [("random", 4), ("extreme", 3), ("alternating", 2), ("dc", 1), ("sparse", 2), ("burst_then_silence", 2)])
+    style = weighted(rng, [("random", 4), ("extreme", 3), ("alternating", 2), ("dc", 1), ("sparse", 2), ("burst_then_silence", 2), ("clipped_mixed", 3)])
     dtype = "int16" if kind.startswith("cs") else rng.choice(["int16", "float64", "int16"])
     # FIR-family scenarios spend half of their runs outside the open known finding (every block >= taps-1),
     # so that the short-block defect cannot starve coverage of everything else
@@ -123,7 +123,9 @@ def gen(rng: random.Random, tier: str, index: int) -> dict:
         splits.append(b)
         left -= b
     return {"filter": f, "signal": {"key": "sig%d" % rng.getrandbits(30), "n": n, "style": style, "dtype": dtype}, "splits": splits,
-            "reset_check": rng.random() < 0.3}
+            "reset_check": rng.random() < 0.3,
+            # a second instance of the same filter (the other channel of a stereo sample) fed alternately with this one
+            "twin": rng.random() < 0.3}
 
 
 # --------------------------------------------------------------------------
@@ -166,6 +168,10 @@ def _signal(sg: dict):
         x = np.where(raw % 7 == 0, -x - 1, x).astype(np.int16)
     elif st == "dc":
         x = np.full(n, 32767 if raw[0] >= 0 else -32768, dtype=np.int16)
+    elif st == "clipped_mixed":
+        # clipped full-scale samples next to tiny ones: exact-integer results where summation order shows
+        pick = raw % 5
+        x = np.where(pick == 0, 32767, np.where(pick == 1, -32768, np.where(pick == 2, -1, np.where(pick == 3, 1, 0)))).astype(np.int16)
     elif st == "sparse":
         # impulses separated by runs of digital silence (a filter's tail must keep ringing through the zeros)
         x = np.where(raw % 11 == 0, raw, 0).astype(np.int16)
@@ -263,7 +269,19 @@ def run(sc: dict) -> RunResult:
         try:
             ref_f, _, _ = _make_filter(f)
             ref = _run_blocks(ref_f, x, [n])
-            got = _run_blocks(flt, x, splits)
+            if sc.get("twin"):
+                res.probes["twin_instance"] += 1
+                other, _, _ = _make_filter(f)
+                x2 = _signal(dict(sg, key=sg["key"] + ".twin"))
+                outs, pos = [], 0
+                for b in splits:
+                    outs.append(np.asarray(flt.process(x[pos:pos + b])))
+                    other.process(x2[pos:pos + b])          # the other channel's block, between two blocks of this one
+                    pos += b
+                outs.append(np.asarray(flt.get_remaining()))
+                got = np.concatenate([o.astype(np.float64) for o in outs])
+            else:
+                got = _run_blocks(flt, x, splits)
         except Exception as e:      # noqa: BLE001
             res.add(PROP, "filter_exception", "%s: %s (filter %s, splits %s)" % (type(e).__name__, str(e)[:100], f, splits[:12]), **feats)
             ref = got = None
